@@ -125,8 +125,9 @@ def main(argv=None):
                 sigs = ["%s:%s" % (hn, cex["sig"])]
                 if getattr(h, "per_clause_findings", False) and cex["detail"].get("kind") == "vc":
                     mine = [f for f in cex["detail"].get("failed", []) if f.startswith(prop + ":")] or cex["detail"].get("failed", [])
-                    fx = (cex.get("params") or {}).get("fixture")
-                    suffix = "|" + os.path.basename(fx) if fx else ""
+                    cp = cex.get("params") or {}
+                    fx = cp.get("fixture")
+                    suffix = ("|layout-variant" if cp.get("vary") else "|" + os.path.basename(fx)) if fx else ""
                     sigs = ["%s:vc:%s%s" % (hn, f, suffix) for f in mine]
                 for sig in sigs:
                     f = findings.setdefault(sig, {"harness": h, "params": cex.get("params", p), "cexs": [], "count": 0})
